@@ -276,6 +276,16 @@ def sync_reply_mechanism(cx, ida, idb):
                 cx.guard(inst, b, [(loc, lab)], [[r"is\(arg2\.%s,Some\)" % fld]], construct=callee + " without id")
             if not cs:
                 inst.violation(b.path, callee, "the sync frame's %s is not forwarded to %s" % (fld, callee))
+            # exactness: the id is forwarded whenever it is present, whatever else the frame carries (a packet resync
+            # nested under the frame id's test is skipped for the frames that need it most: everything was acknowledged
+            # at frame level, only packets were lost)
+            other = "next_packet_id" if fld == "next_frame_id" else "next_frame_id"
+            for loc, lab in cs:
+                alts = cx.fa(b).at(loc) or []
+                common = frozenset.intersection(*[frozenset(a) for a in alts]) if alts else frozenset()
+                extra = sorted(l for l in common if other in l)
+                if extra:
+                    inst.violation(b.path, callee + " conditioned on the other id", "%s is reached only under `%s`: the frame's %s must be forwarded whenever it is present" % (callee, ", ".join(extra)[:120], fld), at=b.span_at(loc))
             # on the Some edge the call is made: every path from entry on which is(Some) holds reaches it -> check via no Some-edge bypass
             fa = cx.fa(b)
             for bb in b.reachable:
